@@ -168,6 +168,7 @@ func C15(rep *ev.Reporter, tier string) {
 				tr0 := hx.Run(b, c15World(), hx.RunOpts{MaxCycle: 6, ReturnErr: flag, DefaultChoice: order, Ctx: pc0, NoSnapshots: true})
 				P := pc0.Polls
 				E := len(tr0.Events) - 1 // without "ret:"
+				customCause := false
 				one := func(mode string, idx int, cause error, far bool) (string, string, bool, *hx.Trace) {
 					var pc *hx.PollCtx
 					o := hx.RunOpts{MaxCycle: 6, ReturnErr: flag, DefaultChoice: order, NoSnapshots: true}
@@ -204,6 +205,9 @@ func C15(rep *ev.Reporter, tier string) {
 					}
 					if far {
 						pc.DeadlineAt = time.Date(2999, 1, 1, 0, 0, 0, 0, time.UTC)
+					}
+					if customCause {
+						pc.WithCustomCause()
 					}
 					o.Ctx = pc
 					w := c15World()
@@ -254,9 +258,10 @@ func C15(rep *ev.Reporter, tier string) {
 					}
 				}
 				// canceled-before-deadline: the context carries a (far) deadline and is cancelled explicitly before it
-				for ci, cause := range []error{context.Canceled, context.DeadlineExceeded, context.Canceled} {
-					cname := []string{"canceled", "deadline", "canceled-before-deadline"}[ci]
+				for ci, cause := range []error{context.Canceled, context.DeadlineExceeded, context.Canceled, context.Canceled} {
+					cname := []string{"canceled", "deadline", "canceled-before-deadline", "canceled-with-custom-cause"}[ci]
 					far := ci == 2
+					customCause = ci == 3
 					for pidx := 1; pidx <= P+1; pidx++ {
 						atomic.AddInt64(&pollPoints, 1)
 						try("poll", pidx, cname, cause, far)
@@ -295,7 +300,7 @@ func C15(rep *ev.Reporter, tier string) {
 		rep.Exhaustive = false
 		rep.Coverage["caps_hit"] = "time budget"
 	}
-	rep.Coverage["rule"] = "35 programs (all 1-rule, all ordered 2-rule, all 3-rule selections of 5 rule kinds with condition and action probes, Complete, never-true, self-disabling) x both flag values x every static rule order; a fault-free run counts the engine's Err() polls P and its observable events E; then one run for EVERY poll index 1..P+1 (Canceled, DeadlineExceeded, and Canceled on a context that carries a deadline far in the future), EVERY event index 1..E as cancellation trigger (inside a condition probe, inside an action probe, in BeginCycle / EvaluateRuleEntry / ExecuteRuleEntry callbacks) and the already-cancelled context; every poll index again while the engine VALUE is shared with another complete run (own instance, facts and never-cancelled context) nested inside the first probe of the run. Oracle: no ExecuteRuleEntry and no action probe of another rule after the flip; already-cancelled: zero firings; the context's error is returned unless Complete was called or no active rule is satisfied on the final facts. Non-trivial: the context really flipped during the run."
+	rep.Coverage["rule"] = "35 programs (all 1-rule, all ordered 2-rule, all 3-rule selections of 5 rule kinds with condition and action probes, Complete, never-true, self-disabling) x both flag values x every static rule order; a fault-free run counts the engine's Err() polls P and its observable events E; then one run for EVERY poll index 1..P+1 (Canceled, DeadlineExceeded, Canceled on a context that carries a deadline far in the future, and Canceled on a context cancelled with a custom cause - Execute returns the context's error, not the cause), EVERY event index 1..E as cancellation trigger (inside a condition probe, inside an action probe, in BeginCycle / EvaluateRuleEntry / ExecuteRuleEntry callbacks) and the already-cancelled context; every poll index again while the engine VALUE is shared with another complete run (own instance, facts and never-cancelled context) nested inside the first probe of the run. Oracle: no ExecuteRuleEntry and no action probe of another rule after the flip; already-cancelled: zero firings; the context's error is returned unless Complete was called or no active rule is satisfied on the final facts. Non-trivial: the context really flipped during the run."
 	rep.Assumptions = append(rep.Assumptions, "a cancellation after the engine's last look at the context is indistinguishable from one after return and is accepted when no satisfied rule is left")
 }
 
